@@ -1147,13 +1147,14 @@ class Context:
 
     @staticmethod
     def _array_length(value) -> int:
-        """A length argument: an integer in [0, 2**32), else RangeError."""
+        """A length argument: an integer in [0, MAX_ARRAY_LENGTH], else RangeError."""
         from .errors import JSRangeError
+        from .values import MAX_ARRAY_LENGTH
 
         if isinstance(value, float) and (math.isnan(value) or math.isinf(value)):
             raise JSRangeError("Invalid array length")
         length = int(value)
-        if length != value or not 0 <= length < 2**32:
+        if length != value or not 0 <= length <= MAX_ARRAY_LENGTH:
             raise JSRangeError("Invalid array length")
         return length
 
